@@ -1,9 +1,13 @@
 ENTRY = dict(
     gen=["parrots"],
-    runner="C10", pkg="./cmd/c10", corr=["Corr.C10Corr"], n=dict(quick=1350, thorough=16000), runner_timeout=2400,
+    runner="C10", pkg="./cmd/c10", corr=["Corr.C10Corr"], n=dict(quick=1700, thorough=17100), runner_timeout=2400,
     rule="spec classes: the 38 predefined parrots, reproducible randomized fingerprints (10 quick / 200 thorough), fingerprinted copies "
          "(Fingerprinter on the class's own ClientHello, re-applied as HelloCustom) of every parrot and of a rotating quarter of the randomized "
-         "ones, three custom specs (five shares, hybrid-only, P-384 only; TLSVersMin 1.0). Per class one honest probe handshake, then one "
+         "ones, custom specs: five shares, hybrid-only, P-384 only (TLSVersMin 1.0); supported_versions lists in descending / ascending / shuffled "
+         "order with GREASE at any position, TLSVersMin/TLSVersMax unset (0) and set (8 fixed + 3 quick / 12 thorough drawn from the seed); "
+         "re-preset sequences on one UConn (ApplyPreset twice / three times with the same spec, a different spec first: Chrome_133, five shares, "
+         "hybrid-only, a fingerprinted spec twice). A class that does not build is a failure (build/<class>). When the wire hello lists its "
+         "versions in a non-descending order every server is pinned to one version (MinVersion = MaxVersion). Per class one honest probe handshake, then one "
          "loopback-TCP handshake per server configuration derived from the class's own WIRE hello: each advertised version as the server's "
          "maximum (TLS 1.0/1.1/1.2/1.3); each offered group of {X25519,P-256,P-384,P-521,X25519MLKEM768} alone in CurvePreferences - a share "
          "the hello sent (direct), or a HelloRetryRequest, the HRR groups crossed with every offered TLS 1.3 suite; each offered TLS 1.3 suite; "
